@@ -129,7 +129,7 @@ def main(argv):
                "merge; values of every kind incl. nested objects/arrays, none_ members and numbers carrying source text.  "
                "Non-trivial: at least one successful mutation; distinct by SHA-1 of the op text.")
     ck.assumptions = ["paths and keys are NUL-terminated C strings", "float -> int conversions out of range (UB) are not executed"]
-    ck.translate(["gen_hash"])
+    ck.translate(["gen_hash", "gen_json"])
     ck.prove("C25")
     hb = ck.harness("h_jsonpath")
     db = ck.driver("drv_json")
